@@ -118,7 +118,7 @@ class Env:
     """One SQLite file with store + queue + event store, any number of workflows.
 
     spec of a workflow: list of stages {"reqs": [i...], "tasks": ["S","T",...], "enabled": None|False|True, "cont": bool}
-    optional per stage: "synth": [{"owner": "B" | "A", "tasks": [...]}, ...] = pre-declared synthetic STAGE_BEFORE / STAGE_AFTER
+    optional per stage: "synth": [{"owner": "B" | "A", "tasks": [...], ("req": k)}, ...] = pre-declared synthetic STAGE_BEFORE / STAGE_AFTER
     children, built the way the repo's tests build them; they are the stage indices after the top-level ones (refs w<i>s<idx>)
     """
 
@@ -237,6 +237,7 @@ class Env:
                                          requisite_stage_ref_ids={f"s{r}" for r in sp.get("reqs", [])}, **extra))
         n_top = len(stages)
         for par, sp in enumerate(spec):
+            first = len(stages)          # a child with "req": k is chained behind the k-th child of the same parent
             for ch in sp.get("synth") or []:
                 from stabilize.models.stage import SyntheticStageOwner
 
@@ -245,6 +246,7 @@ class Env:
                 tasks = [TaskExecution.create(name=f"tk{t}", implementing_class="scripted", stage_start=(t == 0),
                                               stage_end=(t == len(tasks_oc) - 1)) for t in range(len(tasks_oc))]
                 child = StageExecution(ref_id=f"s{i}", type="scripted", name=f"s{i}", tasks=tasks,
+                                       requisite_stage_ref_ids=({f"s{first + ch['req']}"} if ch.get("req") is not None else set()),
                                        context={"_oc": {f"tk{t}": oc for t, oc in enumerate(tasks_oc)}},
                                        synthetic_stage_owner=(SyntheticStageOwner.STAGE_BEFORE if ch["owner"] == "B" else SyntheticStageOwner.STAGE_AFTER))
                 child.parent_stage_id = stages[par].id
